@@ -66,6 +66,14 @@ func (c Cfg) parseVal(raw []byte) (uint64, error) {
 			return 0, err
 		}
 		return strconv.ParseUint(string(b), 10, 64)
+	case "ptr":
+		return strconv.ParseUint(string(raw), 10, 64)
+	case "iface":
+		var v struct{ X []string }
+		if err := json.Unmarshal(raw, &v); err != nil || len(v.X) != 1 {
+			return 0, errors.New("bad iface value")
+		}
+		return strconv.ParseUint(v.X[0], 10, 64)
 	}
 	return 0, errors.New("kind")
 }
